@@ -11,10 +11,16 @@ import (
 // ParseTemplateBytes parses template bytes into HTML nodes, handling both full documents and fragments.
 // If the content contains a full HTML document (</html> tag, in any letter case), it uses html.Parse.
 // Otherwise, it parses as a fragment using a cached body element.
+//
+// A template is source text, not a page in a scripting browser: <noscript> is parsed as the
+// markup it contains (the way a browser without scripting reads it), so that what it holds is
+// evaluated and written like any other element instead of being escaped as one piece of text.
 func ParseTemplateBytes(templateBytes []byte) ([]*html.Node, error) {
+	noScripting := html.ParseOptionEnableScripting(false)
+
 	// Check if input template contains html/body (tag names are case-insensitive)
 	if bytes.Contains(bytes.ToLower(templateBytes), []byte("</html>")) {
-		doc, err := html.Parse(bytes.NewReader(templateBytes))
+		doc, err := html.ParseWithOptions(bytes.NewReader(templateBytes), noScripting)
 		if err != nil {
 			return nil, err
 		}
@@ -27,7 +33,7 @@ func ParseTemplateBytes(templateBytes []byte) ([]*html.Node, error) {
 
 	// Parse the fragment using cached body element
 	body := helpers.GetBodyNode()
-	nodes, err := html.ParseFragment(bytes.NewReader(templateBytes), body)
+	nodes, err := html.ParseFragmentWithOptions(bytes.NewReader(templateBytes), body, noScripting)
 	if err != nil {
 		return nil, err
 	}
